@@ -40,6 +40,10 @@ pub struct FState {
     pub io_fired: Option<(u64, IoRecord)>,
     pub benign_fired: u64,
     pub rng: Option<simcore::prng::Rng>,
+    /// per-mille probability that a reader-side `ByteStream::read` is shortened, and its PRNG
+    pub short_read_pm: u32,
+    pub short_rng: Option<simcore::prng::Rng>,
+    pub short_reads: u64,
 }
 
 pub struct FHooks {
@@ -71,6 +75,15 @@ impl FHooks {
         st.io_fired = None;
         st.benign_fired = 0;
     }
+    /// Enable seeded short reads on jubako's reader-side streams (0 disables).
+    pub fn set_short_reads(&self, per_mille: u32, seed: u64) {
+        let mut st = self.st.lock().unwrap();
+        st.short_read_pm = per_mille;
+        st.short_rng = Some(simcore::prng::Rng::derive(seed, "short-reads", 0));
+    }
+    pub fn short_reads_fired(&self) -> u64 {
+        self.st.lock().unwrap().short_reads
+    }
     pub fn take_probes(&self) -> BTreeMap<&'static str, u64> {
         std::mem::take(&mut self.st.lock().unwrap().probes)
     }
@@ -88,6 +101,21 @@ impl verif_rt::Hooks for FHooks {
             .get(name)
             .copied()
             .unwrap_or(default)
+    }
+    fn short_read(&self, n: usize) -> usize {
+        let mut st = self.st.lock().unwrap();
+        let pm = st.short_read_pm as u64;
+        if pm == 0 {
+            return n;
+        }
+        let rng = st.short_rng.as_mut().unwrap();
+        if rng.below(1000) < pm {
+            let k = rng.range(1, n as u64 - 1) as usize;
+            st.short_reads += 1;
+            k
+        } else {
+            n
+        }
     }
     fn io(&self, op: &IoOp) -> IoDecision {
         let mut st = self.st.lock().unwrap();
